@@ -208,6 +208,17 @@ FIXED = [
         mk_field("AllowAutoTopicCreation", "bool", "4+", default="true")]},
     {"name": "MetadataResponse", "type": "response", "apiKey": 3, "validVersions": "0-12", "flexibleVersions": "9+", "fields": [
         mk_field("ThrottleTimeMs", "int32", "3+")]},
+    # custom (entityType) types in every nullability situation: declared nullable from some version on, never nullable,
+    # nullable by the tagged/ignorable convention, and with a default
+    {"name": "CustomTypedRequest", "type": "request", "apiKey": 90, "validVersions": "0-2", "flexibleVersions": "2+", "fields": [
+        mk_field("TransactionalId", "string", "0+", nullableVersions="1+", entityType="transactionalId"),
+        mk_field("GroupRef", "string", "0+", entityType="groupId"),
+        mk_field("Leader", "int32", "0+", entityType="brokerId", default="-1"),
+        mk_field("Producer", "int64", "1+", entityType="producerId"),
+        mk_field("TopicRef", "string", "2+", taggedVersions="2+", tag=0, ignorable=True, entityType="topicName"),
+        mk_field("Members", "[]string", "0+", entityType="groupId")]},
+    {"name": "CustomTypedResponse", "type": "response", "apiKey": 90, "validVersions": "0-2", "flexibleVersions": "2+", "fields": [
+        mk_field("TransactionalId", "string", "0+", nullableVersions="0+", default="null", entityType="transactionalId")]},
     # ignorable tagged fields WITHOUT default of the types that have no null on the wire (and of those that have one)
     {"name": "TaggedZeroesData", "type": "data", "validVersions": "0-1", "flexibleVersions": "0+", "fields": [
         mk_field("Plain", "int32", "0+"),
